@@ -202,12 +202,89 @@ Section Gen.
       - apply (seq_rel _ _ (fun s => gen_list w gen s rest) (fun s => gen_list w gen s rest'));
           [apply gen_one_rel; assumption|]. intros sa sb Hab. apply IH. exact Hab.
     Qed.
+    (** where code generation stops with the code-lookup NodeError ([code_gen_site]) *)
+    Variables gsite gsite' : cgstate -> list ast -> option token.
+    Hypothesis Hgsite : forall s1 s2 b b', cgrel s1 s2 -> asrel b b' -> oT (gsite s1 b) (gsite' s2 b').
+
+    Lemma scoped_site_rel k s1 s2 pre1 pre2 b b' :
+      cgrel s1 s2 -> asrel b b' ->
+      (forall r1 r2, rrel r1 r2 -> rrel (fst (pre1 r1)) (fst (pre2 r2)) /\ nsrel (snd (pre1 r1)) (snd (pre2 r2))) ->
+      oT (scoped_site gsite k s1 pre1 b) (scoped_site gsite' k s2 pre2 b').
+    Proof.
+      intros Hs Hb Hpre. pose proof Hs as [Hr Hm]. unfold scoped_site.
+      pose proof (enter_scope_rel T E M (cg_r s1) (cg_r s2) k Hr) as HEn.
+      destruct (enter_scope (cg_r s1) k) as [ra| |], (enter_scope (cg_r s2) k) as [rb| |]; cbn [res_rel] in HEn;
+        try contradiction; try exact I.
+      apply Hgsite; [|exact Hb]. apply cgrel_set_r; [exact Hs|]. apply (Hpre ra rb HEn).
+    Qed.
+
+    Lemma for_site_rel v b b' : asrel b b' -> forall n k s1 s2, cgrel s1 s2 ->
+      oT (for_site gen gsite n k v b s1) (for_site gen gsite' n k v b' s2).
+    Proof.
+      intros Hb. induction n as [|n IH]; intros k s1 s2 H; cbn [for_site]; [exact I|].
+      assert (Hpre : forall r1 r2 : rstate, rrel r1 r2 ->
+                rrel (fst ((fun r : rstate => (r, [NSymConst v k])) r1)) (fst ((fun r : rstate => (r, [NSymConst v k])) r2)) /\
+                nsrel (snd ((fun r : rstate => (r, [NSymConst v k])) r1)) (snd ((fun r : rstate => (r, [NSymConst v k])) r2))).
+      { intros r1 r2 Hr. cbn [fst snd]. split; [exact Hr|]. constructor; [constructor|constructor]. }
+      pose proof (scoped_rel SInternal s1 s2 _ _ b b' H Hb Hpre) as HS.
+      destruct (scoped gen SInternal s1 _ b) as [[sa na]| |], (scoped gen SInternal s2 _ b') as [[sb nb]| |];
+        cbn [res_rel] in HS; try contradiction; try exact I.
+      - apply IH. apply HS.
+      - apply scoped_site_rel; assumption.
+    Qed.
+
+    Lemma gen_one_site_rel s1 s2 a a' : cgrel s1 s2 -> arel a a' ->
+      oT (gen_one_site w gen gsite s1 a) (gen_one_site w gen gsite' s2 a').
+    Proof.
+      intros H Ha. pose proof H as [Hr Hm]. destruct Ha; cbn [gen_one_site]; try exact I.
+      - apply Hgsite; assumption.
+      - apply scoped_site_rel; auto using plain_pre.
+      - apply scoped_site_rel; auto using plain_pre.
+      - rewrite (if_condition_rel _ _ c c' Hr) by assumption.
+        destruct (if_condition w (cg_r s2) c') as [[|]| |]; try exact I. apply Hgsite; assumption.
+      - rewrite (if_condition_rel _ _ c c' Hr) by assumption.
+        destruct (if_condition w (cg_r s2) c') as [[|]| |]; try exact I; apply Hgsite; assumption.
+      - pose proof (mac_get _ _ n Hm) as G.
+        destruct (dict_get (cg_macros s1) n) as [md|], (dict_get (cg_macros s2) n) as [md'|]; try contradiction; [|exact I].
+        destruct G as [Gp Gb]. rewrite Gp.
+        match goal with Hargs : Forall2 mrel _ _ |- _ => pose proof (eval_macro_args_rel _ _ Hr (md_params md') _ _ Hargs) as HA end.
+        destruct (eval_macro_args w (cg_r s1) (md_params md') args) as [bound| |],
+                 (eval_macro_args w (cg_r s2) (md_params md') args') as [bound'| |]; cbn [res_rel] in HA; try contradiction; try exact I.
+        apply scoped_site_rel; auto. intros r1 r2 Hr'. apply bind_macro_args_rel; assumption.
+      - pose proof (value_for_rel T E M _ _ n Hr) as G.
+        destruct (value_for (cg_r s1) n) as [[x|body bfi]|k|], (value_for (cg_r s2) n) as [[x'|body' bfi']|k'|];
+          cbn [res_rel svrel] in G; try contradiction; try exact I.
+        + cbn [oT goT]. assumption.
+        + apply Hgsite; [assumption|apply G].
+      - rewrite (eval_raw_rel T E M HE w _ _ lo lo' Hr), (eval_raw_rel T E M HE w _ _ hi hi' Hr) by assumption.
+        destruct (eval_raw w (cg_r s2) lo') as [from| |]; try exact I.
+        destruct (eval_raw w (cg_r s2) hi') as [to| |]; try exact I.
+        apply for_site_rel; assumption.
+    Qed.
+
+    Lemma gen_list_site_rel body body' : asrel body body' -> forall s1 s2, cgrel s1 s2 ->
+      oT (gen_list_site w gen gsite s1 body) (gen_list_site w gen gsite' s2 body').
+    Proof.
+      induction 1 as [|a a' rest rest' Ha Hrest IH]; intros s1 s2 H; cbn [gen_list_site]; [exact I|].
+      pose proof (gen_one_rel s1 s2 a a' H Ha) as HG.
+      destruct (gen_one w gen s1 a) as [[sa na]| |], (gen_one w gen s2 a') as [[sb nb]| |]; cbn [res_rel] in HG;
+        try contradiction; try exact I.
+      - apply IH. apply HG.
+      - apply gen_one_site_rel; assumption.
+    Qed.
   End Step.
 
   Theorem code_gen_rel fuel : gen_rel (code_gen_fuel w fuel).
   Proof.
     induction fuel as [|f IH]; intros s1 s2 b b' H Hb; cbn [code_gen_fuel]; [reflexivity|].
     apply gen_list_rel; auto.
+  Qed.
+
+  Theorem code_gen_site_rel fuel : forall s1 s2 b b', cgrel s1 s2 -> asrel b b' ->
+    oT (code_gen_site w fuel s1 b) (code_gen_site w fuel s2 b').
+  Proof.
+    induction fuel as [|f IH]; intros s1 s2 b b' H Hb; cbn [code_gen_site]; [exact I|].
+    apply gen_list_site_rel; auto using code_gen_rel.
   Qed.
 
   (** ** assemble_program *)
@@ -258,7 +335,8 @@ Section Gen.
     assert (Hs : cgrel {| cg_r := r; cg_macros := [] |} {| cg_r := r; cg_macros := [] |}) by (split; [exact Hr|constructor]).
     pose proof (code_gen_rel cg_depth _ _ prog prog' Hs Hp) as HG.
     destruct (code_gen_fuel w cg_depth _ prog) as [[s ns]| |], (code_gen_fuel w cg_depth _ prog') as [[s' ns']| |];
-      cbn [res_rel] in HG; try contradiction; [|subst; cbn; auto|exact I].
+      cbn [res_rel] in HG; try contradiction;
+      [|subst; cbn [aresrel]; split; [reflexivity|apply code_gen_site_rel; assumption]|exact I].
     destruct HG as [[Hcr _] Hns]. cbn [fst snd] in *.
     pose proof (assemble_nodes_rel T E M HE w ns ns' (cg_r s) (cg_r s') Hns Hcr) as HA.
     pose proof (nodes_site_rel T E M HE w ns ns' (cg_r s) (cg_r s') Hns Hcr) as HS.
